@@ -193,7 +193,7 @@ func c13Literals(c *Case) {
 		}
 	}
 	// escapes: \n \t \\ are processed; anything else is an error when (and only when) evaluated
-	for _, e := range []string{"\\n", "\\t", "\\\\", "a\\nb\\tc\\\\d", "\\a", "\\q", "\\0", "\\'", "\\\"", "\\x41", "\\u00e9", "trailing\\", "\\ "} {
+	for _, e := range []string{"café\\tau lait", "日\\n本", "é\\\\é", "a\\n😀", "\\tß", "\\n", "\\t", "\\\\", "a\\nb\\tc\\\\d", "\\a", "\\q", "\\0", "\\'", "\\\"", "\\x41", "\\u00e9", "trailing\\", "\\ "} {
 		if strings.Contains(e, "'") {
 			continue
 		}
@@ -324,7 +324,7 @@ func c13Cases(tier string) int {
 func init() {
 	register(&Prop{
 		ID: "C13", Level: "exploration",
-		Rule:     "metamorphic: a generated program (structured programs and function programs, as token sequences) is run in the canonical layout (one space between tokens, one statement per line, single quotes) and in 6 (thorough 12) random layouts of the same tokens: between tokens nothing (where a table says they cannot fuse) / spaces / tabs / CR / comment+newline / newlines, except no newline after print/return, after a print-list comma or before ';'; statement-separating newlines replaced by ';' unless the statement ends in '}'; either quote style; in a quarter of the programs some of the optional commas (between object members, between match cases) are left out. stdout and outcome must be identical. Enumerated: every adjacent token pair of a two-program corpus using all operators and keywords written without a space, one gap at a time and all at once; literal slice vs the model: every byte 0x01-0xFF (control bytes, CR, LF included) and 9 sequences of line-end bytes inside a string literal in both quote styles, the three escapes and 10 non-escapes (error only when evaluated), number spellings incl. 30 digits and leading zeros, 126 identifiers built from keywords. Non-trivial = layout differing from canonical in >= 3 gaps incl. a newline, comment or removed space; distinct by text.",
+		Rule:     "metamorphic: a generated program (structured programs and function programs, as token sequences) is run in the canonical layout (one space between tokens, one statement per line, single quotes) and in 6 (thorough 12) random layouts of the same tokens: between tokens nothing (where a table says they cannot fuse) / spaces / tabs / CR / comment+newline / newlines, except no newline after print/return, after a print-list comma or before ';'; statement-separating newlines replaced by ';' unless the statement ends in '}'; either quote style; in a quarter of the programs some of the optional commas (between object members, between match cases) are left out. stdout and outcome must be identical. Enumerated: every adjacent token pair of a two-program corpus using all operators and keywords written without a space, one gap at a time and all at once; literal slice vs the model: every byte 0x01-0xFF (control bytes, CR, LF included) and 9 sequences of line-end bytes inside a string literal in both quote styles, the three escapes (also next to non-ASCII characters in one literal) and 10 non-escapes (error only when evaluated), number spellings incl. 30 digits and leading zeros, 126 identifiers built from keywords. Non-trivial = layout differing from canonical in >= 3 gaps incl. a newline, comment or removed space; distinct by text.",
 		NumCases: c13Cases,
 		Run: func(c *Case) {
 			switch c.Idx {
